@@ -257,6 +257,16 @@ SHEETS += [
 </xsl:stylesheet>''' % (X, VX, G, G, G)),
 ]
 
+# an abort in the MIDDLE of xsl:number's backwards walk (CountersTable::countNode has collected nodes in its scratch list
+# m_newFound when the count pattern raises): the nodes are numbered last-to-first and the node that makes the
+# pattern fail comes EARLIER in the document than the node being numbered (sources "fail-first" below); seed C06_d
+SHEETS += [
+    ("run", "error-in-number-count-walk", '''<xsl:stylesheet %s %s><xsl:output method="text"/>
+ <xsl:template match="/"><xsl:apply-templates select="//item"><xsl:sort select="position()" data-type="number" order="descending"/></xsl:apply-templates></xsl:template>
+ <xsl:template match="item"><xsl:number level="any" count="item[@ok or %s]"/>.<xsl:number level="single" count="item[@ok or %s]"/>;</xsl:template>
+</xsl:stylesheet>''' % (X, VX, G, G)),
+]
+
 LAZY_SHEETS = [i for i, t in enumerate(SHEETS) if t[1] in (
     "error-in-global-var-body", "error-in-global-var-select", "error-in-global-param-default",
     "error-in-call-template-params", "error-in-apply-imports", "error-in-attribute-set", "error-in-key-build",
@@ -266,7 +276,7 @@ LAZY_SHEETS = [i for i, t in enumerate(SHEETS) if t[1] in (
 # which sheets use the same facility as an aborting sheet (a failure is followed by one of them)
 FACILITY = {
     "sort": ["sort-text-foreach", "sort-number-apply", "sort-lang", "sort+modes", "error-in-sort-key-text", "error-in-sort-key-number", "error-in-sort-key-second", "rtf+nodeset"],
-    "number": ["number", "error-in-number-count", "deep-no-boom"],
+    "number": ["number", "error-in-number-count", "error-in-number-count-walk", "deep-no-boom"],
     "key": ["keys+modes", "document", "error-in-key-build", "deep-no-boom"],
     "format-number": ["format-number-custom", "error-in-format-number"],
     "rtf": ["rtf-observer", "error-in-rtf-text", "error-in-rtf-nested", "rtf+nodeset", "deep-no-boom", "error-in-global-var-body"],
@@ -293,6 +303,9 @@ SOURCES = [
     ("ok", '<doc><item id="3" g="b" w="10">c</item><item id="1" g="a" w="9">B</item><item id="2" g="b" w="100">a</item><item id="4" g="a" w="5" fail="1">b</item></doc>'),
     ("ok", '<doc><sec><item id="20" g="x" w="3">q</item><item id="7" g="y" w="20">Q</item></sec><item id="12" g="x" w="1">p</item><item id="9" g="y" w="11">r</item><item id="1" g="z" w="2" fail="1">s</item></doc>'),
     ("ok", '<doc><item id="1" g="a" w="100">a</item><item id="2" g="b" w="10">b</item><item id="3" g="a" w="9">C</item><item id="4" g="b" w="5">d</item></doc>'),
+    # "fail-first": the failing node comes first / in the middle, the nodes after it are fine (some carry ok="1")
+    ("ok", '<doc><item id="1" g="a" w="7" fail="1">a</item><item id="2" g="b" w="10" ok="1">b</item><item id="3" g="a" w="9" ok="1">C</item><item id="4" g="b" w="5" ok="1">d</item></doc>'),
+    ("ok", '<doc><item id="5" g="x" w="3" ok="1">q</item><sec><item id="6" g="y" w="2" fail="1">r</item><item id="7" g="x" w="8" ok="1">s</item></sec><item id="8" g="y" w="1" ok="1">t</item><item id="9" g="x" w="4" ok="1">u</item></doc>'),
 ]
 FAIL_SOURCES = [i for i, s_ in enumerate(SOURCES) if 'fail="1"' in s_[1]]
 
